@@ -716,7 +716,7 @@ func init() {
 		Explain: "Structural necessary conditions of FromStr32/PathOf/PathsOf (DESIGN.md 5/C11): bit/byte unit consistency and rounding (E4), the big-endian gather constants and window constant (E6), the mask width, the min-clamp edges of the returned count (E7), and the argument wiring of PathOf/PathsOf incl. the dedup edge.",
 		NotDec:  []string{"the nested byte-availability guards (i < l) and the interplay of the final shift with partial windows (arithmetic)", "Mask table contents"},
 		Trusted: []string{"go/ssa construction"},
-		Quick:   []Config{cfgDefault}, Thorough: []Config{cfgDefault, cfg386},
+		Quick:   []Config{cfgDefault, cfg386}, Thorough: []Config{cfgDefault, cfg386},
 		Run: runC11,
 	})
 }
